@@ -275,6 +275,11 @@ class Assoc:
 def run_case(case):
     warnings.simplefilter('ignore')
     TS = _aeic()[0]
+    # Codec.tla PointCounts: every third case gives its second trajectory exactly ONE point (the per-point fields are
+    # arrays of length 1: still arrays, and a species present at that one point is present)
+    from .store_replay import _idr
+
+    _idr['onepoint'] = (len(case['unset']) + len(case['layout']) + sum(len(v) for v in case['s'].values())) % 3 == 0
     d = Path(tempfile.mkdtemp(prefix='c03-'))
     devs = []
     ts = None
@@ -480,6 +485,7 @@ def run_case(case):
                             pass
         gc.collect()
         shutil.rmtree(d, ignore_errors=True)
+        _idr['onepoint'] = False
 
 
 def run_refused(ctx: Ctx):
